@@ -184,6 +184,8 @@ def run(ctx):
 
 
 def _run(ctx):
+    if not L.importable(ctx):
+        return
     rng = ctx.rng
     batch = []
     for fname, rec in common.load_corpus('C11'):
@@ -258,7 +260,7 @@ def _run(ctx):
     # construction of array quantities: ArrayQuantity(numbers, units=u) and ArrayQuantity([quantities]) are the numbers times u
     construction_cases(ctx)
     # random magnitudes on random pairs
-    for i in range(ctx.n(3000, 60000)):
+    for i in range(ctx.n(3000, 200000)):
         (ka, ua, _), (kb, _, ub) = rng.choice(KINDS), rng.choice(KINDS)
         if rng.random() < 0.5:
             kb, ub = ka, (ub if False else [k for k in KINDS if k[0] == ka][0][2])
@@ -369,6 +371,8 @@ def _replay(ctx, rec, batch):
 
 def replay(ctx, rec):
     with L.quiet():
+        if 'import' in rec.get('input', rec):
+            return L.importable(ctx)
         return _replay(ctx, rec, [])
 
 
